@@ -19,7 +19,7 @@ Proof.
   - rewrite app_nil_r. destruct (existsb (key_same k) seen); reflexivity.
   - destruct (existsb (key_same k0) seen) eqn:E.
     + apply IH.
-    + rewrite IH. cbn [app]. rewrite existsb_swap. reflexivity.
+    + rewrite IH, existsb_swap. reflexivity.
 Qed.
 
 Lemma distinct_in : forall ks seen d, In d (distinct_keys seen ks) -> In d ks.
@@ -38,8 +38,57 @@ Proof.
   - destruct H as [<-|H]; [exact E|]. apply IH in H. cbn [existsb] in H. apply orb_false_iff in H. tauto.
 Qed.
 
+Lemma filter_none {A} (f : A -> bool) l : (forall x, In x l -> f x = false) -> filter f l = [].
+Proof.
+  induction l as [|a t IH]; intros H; [reflexivity|]. cbn [filter].
+  rewrite (H a (or_introl eq_refl)). apply IH. intros x Hx. apply H. now right.
+Qed.
+
 Lemma groups_keys : forall krs, map fst (groups_of krs) = distinct_keys [] (map fst krs).
 Proof. intros; unfold groups_of. rewrite map_map. cbn [fst]. apply map_id. Qed.
+
+(* ------------------------------------------------------------------ the hash table, one row more *)
+Lemma run_agg_snoc : forall f rows s r,
+  run_agg f s (rows ++ [r]) = sbind (run_agg f s rows) (fun s' => update f s' r).
+Proof.
+  induction rows as [|a t IH]; intros s r; cbn [app run_agg].
+  - cbn [sbind]. destruct (update f s r); reflexivity.
+  - destruct (update f s a); cbn [sbind]; [apply IH|reflexivity|reflexivity].
+Qed.
+
+(* the states of a group are the folds of update over the rows of the group *)
+Definition states_ok (fs : list mfn) (rows : list row) (ss : list astate) : Prop :=
+  Forall2 (fun f s => run_agg f st0 rows = SOk s) fs ss.
+(* a table entry against a reference group: the key classes are those of the group key, the group
+   values shown are the key, the states are the folds over the rows *)
+Definition entry_ok (fs : list mfn) (e : gentry) (g : list value * list row) : Prop :=
+  fst (fst e) = cls (fst g) /\ snd (fst e) = fst g /\ states_ok fs (snd g) (snd e).
+
+Lemma init_states_ok : forall fs, states_ok fs [] (map (fun _ => st0) fs).
+Proof. induction fs as [|f t IH]; cbn [map]; constructor; [reflexivity|exact IH]. Qed.
+
+Lemma update_all_ok : forall fs ss rows r ss',
+  states_ok fs rows ss -> update_all fs ss r = SOk ss' -> states_ok fs (rows ++ [r]) ss'.
+Proof.
+  intros fs ss rows r ss' H. revert ss'. induction H as [|f s fs' ss0 H1 H2 IH]; intros ss' U; cbn [update_all] in U.
+  - injection U as <-. constructor.
+  - destruct (update f s r) as [a| |] eqn:Ua; cbn [sbind] in U; try discriminate.
+    destruct (update_all fs' ss0 r) as [l| |] eqn:Ul; cbn [sbind] in U; try discriminate.
+    injection U as <-. constructor; [|apply IH; reflexivity].
+    rewrite run_agg_snoc, H1. cbn [sbind]. exact Ua.
+Qed.
+
+Lemma hash_aggregate_snoc : forall keys fs rows r tbl,
+  hash_aggregate keys fs (rows ++ [r]) tbl =
+  sbind (hash_aggregate keys fs rows tbl)
+        (fun tbl' => sbind (key_of keys r) (fun kv => insert_row fs (fst kv) (snd kv) r tbl')).
+Proof.
+  induction rows as [|a t IH]; intros r tbl; cbn [app hash_aggregate sbind].
+  - destruct (key_of keys r) as [kv| |]; cbn [sbind]; try reflexivity.
+    destruct (insert_row fs (fst kv) (snd kv) r tbl); reflexivity.
+  - destruct (key_of keys a) as [kv| |]; cbn [sbind]; try reflexivity.
+    destruct (insert_row fs (fst kv) (snd kv) a tbl); cbn [sbind]; [apply IH|reflexivity|reflexivity].
+Qed.
 
 Section Keys.
   (* a set of keys on which "same group" is equality of the encoded classes *)
@@ -81,7 +130,22 @@ Section Keys.
     apply orb_false_iff in Hd. tauto.
   Qed.
 
-  Lemma groups_of_snoc : forall krs k r, Forall P (map fst krs) -> P k ->
+  Lemma no_same_before : forall (krs : list (list value * row)) k, Forall P (map fst krs) -> P k ->
+    existsb (key_same k) (distinct_keys [] (map fst krs)) = false ->
+    forall kr, In kr krs -> key_same k (fst kr) = false.
+  Proof.
+    intros krs k F Pk E kr I. destruct (key_same k (fst kr)) eqn:Q; [|reflexivity].
+    assert (I' : In (fst kr) (map fst krs)) by (apply in_map; exact I).
+    pose proof (distinct_cover (map fst krs) [] (fst kr) F I') as Cv. cbn [app] in Cv.
+    apply existsb_exists in Cv as [d [Hd Sd]].
+    assert (Pd : P d) by (apply distinct_in in Hd; rewrite Forall_forall in F; auto).
+    assert (Pkr : P (fst kr)) by (rewrite Forall_forall in F; auto).
+    assert (existsb (key_same k) (distinct_keys [] (map fst krs)) = true).
+    { apply existsb_exists. exists d. split; [exact Hd|]. apply (same_trans k (fst kr) d); auto. }
+    congruence.
+  Qed.
+
+  Lemma groups_of_snoc : forall (krs : list (list value * row)) k r, Forall P (map fst krs) -> P k ->
     groups_of (krs ++ [(k, r)]) =
     if existsb (key_same k) (map fst (groups_of krs))
     then map (fun g => if key_same (fst g) k then (fst g, snd g ++ [r]) else g) (groups_of krs)
@@ -102,29 +166,58 @@ Section Keys.
           assert (existsb (key_same k) D = true) by (apply existsb_exists; eauto). congruence. }
         rewrite Hs. cbn [map]. now rewrite app_nil_r.
       + f_equal. f_equal. rewrite filter_app, map_app. cbn [filter fst]. rewrite (same_refl k Pk). cbn [map snd].
-        replace (filter (fun kr : list value * row => key_same k (fst kr)) krs) with (@nil (list value * row)); [reflexivity|].
-        symmetry. apply (proj2 (List.filter_nil _ _)) || idtac.
-        induction krs as [|[k2 r2] t IHt]; [reflexivity|]. cbn [filter fst].
-        cbn [map fst] in F. inversion F as [|? ? P2 Ft]; subst.
-        assert (Hn : key_same k k2 = false).
-        { destruct (key_same k k2) eqn:Q; [|reflexivity].
-          pose proof (distinct_cover (map fst ((k2, r2) :: t)) [] k2 F (or_introl eq_refl)) as Cv. cbn [app] in Cv.
-          apply existsb_exists in Cv as [d [Hd Sd]].
-          assert (existsb (key_same k) D = true).
-          { apply existsb_exists. exists d. split; [exact Hd|]. apply (same_trans k k2 d); auto. }
-          congruence. }
-        rewrite Hn.
-        (* the tail: its distinct keys are among D up to "same" *)
-        clear IHt. induction t as [|[k3 r3] t IH3]; [reflexivity|]. cbn [filter fst].
-        cbn [map fst] in Ft. inversion Ft as [|? ? P3 Ft']; subst.
-        assert (Hn3 : key_same k k3 = false).
-        { destruct (key_same k k3) eqn:Q; [|reflexivity].
-          assert (I3 : In k3 (map fst ((k2, r2) :: (k3, r3) :: t))) by (right; left; reflexivity).
-          pose proof (distinct_cover (map fst ((k2, r2) :: (k3, r3) :: t)) [] k3 F I3) as Cv. cbn [app] in Cv.
-          apply existsb_exists in Cv as [d [Hd Sd]].
-          assert (existsb (key_same k) D = true).
-          { apply existsb_exists. exists d. split; [exact Hd|]. apply (same_trans k k3 d); auto. }
-          congruence. }
-        rewrite Hn3. apply IH3.
-  Abort.
+        rewrite (filter_none _ krs (no_same_before krs k F Pk E)). reflexivity.
+  Qed.
+  Lemma insert_row_ok : forall fs k r tbl G tbl',
+    Forall2 (entry_ok fs) tbl G -> Forall P (map fst G) -> P k ->
+    ForallOrdPairs (fun d1 d2 => key_same d2 d1 = false) (map fst G) ->
+    insert_row fs (cls k) k r tbl = SOk tbl' ->
+    Forall2 (entry_ok fs) tbl'
+      (if existsb (key_same k) (map fst G)
+       then map (fun g => if key_same (fst g) k then (fst g, snd g ++ [r]) else g) G
+       else G ++ [(k, [r])]).
+  Proof.
+    intros fs k r tbl G tbl' H. revert tbl'. induction H as [|e g tbl G He Ht IH]; intros tbl' F Pk O I.
+    - cbn [insert_row] in I.
+      destruct (update_all fs (map (fun _ => st0) fs) r) as [ss| |] eqn:U; cbn [sbind] in I; try discriminate.
+      injection I as <-. cbn [map existsb app]. constructor; [|constructor].
+      split; [reflexivity|split; [reflexivity|]]. cbn [snd].
+      apply (update_all_ok fs _ [] r ss (init_states_ok fs) U).
+    - destruct e as [[ke ve] ss]. destruct He as [Hk [Hv Hs]]. cbn [fst snd] in Hk, Hv, Hs.
+      cbn [map] in F, O. inversion F as [|? ? Pg Ft]; subst. inversion O as [|? ? Og Ot]; subst.
+      cbn [insert_row] in I. rewrite <- (Hc k (fst g) Pk Pg) in I.
+      cbn [map existsb]. destruct (key_same k (fst g)) eqn:Q; cbn [orb].
+      + destruct (update_all fs ss r) as [ss'| |] eqn:U; cbn [sbind] in I; try discriminate. injection I as <-.
+        rewrite (same_sym (fst g) k Pg Pk), Q. constructor.
+        * split; [reflexivity|split; [reflexivity|]]. cbn [fst snd]. eapply update_all_ok; eauto.
+        * replace (map (fun g0 : list value * list row => if key_same (fst g0) k then (fst g0, snd g0 ++ [r]) else g0) G) with G; [exact Ht|].
+          symmetry. erewrite map_ext_in; [apply map_id|]. intros g' Hg'. cbn beta.
+          assert (Pg' : P (fst g')) by (rewrite Forall_forall in Ft; apply Ft; now apply in_map).
+          destruct (key_same (fst g') k) eqn:Q'; [|reflexivity]. exfalso.
+          rewrite Forall_forall in Og. specialize (Og (fst g') (in_map fst _ _ Hg')). cbn beta in Og.
+          rewrite (same_trans (fst g') k (fst g) Pg' Pk Pg Q' Q) in Og. discriminate.
+      + destruct (insert_row fs (cls k) k r tbl) as [t'| |] eqn:R; cbn [sbind] in I; try discriminate. injection I as <-.
+        specialize (IH t' Ft Pk Ot eq_refl).
+        rewrite (same_sym (fst g) k Pg Pk), Q.
+        destruct (existsb (key_same k) (map fst G)); cbn [app]; (constructor; [split; [reflexivity|split; [reflexivity|exact Hs]]|exact IH]).
+  Qed.
+
+  Theorem hash_groups : forall keys fs (krs : list (list value * row)) tbl,
+    Forall (fun kr => key_of keys (snd kr) = SOk (cls (fst kr), fst kr)) krs ->
+    Forall P (map fst krs) ->
+    hash_aggregate keys fs (map snd krs) [] = SOk tbl ->
+    Forall2 (entry_ok fs) tbl (groups_of krs).
+  Proof.
+    intros keys fs krs. induction krs as [|[k r] krs IH] using rev_ind; intros tbl Hk F H.
+    - cbn in H. injection H as <-. constructor.
+    - rewrite map_app in H, F. cbn [map fst snd] in H, F. rewrite hash_aggregate_snoc in H.
+      destruct (hash_aggregate keys fs (map snd krs) []) as [tbl1| |] eqn:H1; cbn [sbind] in H; try discriminate.
+      apply Forall_app in Hk as [Hk1 Hk2]. inversion Hk2 as [|? ? Hkr _]; subst. cbn [fst snd] in Hkr.
+      rewrite Hkr in H. cbn [sbind fst snd] in H.
+      apply Forall_app in F as [F1 F2]. inversion F2 as [|? ? Pk _]; subst.
+      rewrite (groups_of_snoc krs k r F1 Pk).
+      apply insert_row_ok with (tbl := tbl1); auto.
+      + rewrite groups_keys. apply Forall_forall. intros d Hd. apply distinct_in in Hd. rewrite Forall_forall in F1. auto.
+      + rewrite groups_keys. apply distinct_pairwise.
+  Qed.
 End Keys.
